@@ -43,6 +43,7 @@ MATERIALISE_FUNCS = {
 MATERIALISE_METHODS = {"compute", "item", "tolist", "to_numpy", "load", "persist_now", "__bool__", "__iter__", "tobytes"}
 MATERIALISE_ATTRS = {"values"}
 # calls that always yield a chunked (lazy) array
+EAGER_CONSTRUCTORS = {"numpy.full", "numpy.zeros", "numpy.ones", "numpy.empty"}
 CHUNKED_MAKERS = {"dask.array.from_array", "dask.array.arange", "dask.array.blockwise", "dask.array.map_blocks", "dask.array.Array",
                   "dask.array.core.Array", "dask.array.core.map_blocks", "dask.array.zeros", "dask.array.ones", "dask.array.full",
                   "dask.array.empty", "dask.array.reductions.cumreduction", "dask.array.reductions._tree_reduce", "cubed.from_array",
@@ -58,6 +59,7 @@ class VarInfo:
     flag: int | None = None   # bitset where a boolean variable is true; None unknown
     anyflag: int | None = None  # for tuples of booleans: valuations where any() of it is true
     parts: tuple | None = None  # per-position infos of a tuple value (function results)
+    eager_ctor: bool = False    # built by a NumPy constructor that does not look at its input's data (np.full, np.zeros ...)
 
 
 NOCHUNK = VarInfo()
@@ -297,6 +299,10 @@ class _FuncLazy:
         self.atoms = Atoms(names)
         self.atom_vars = {a: {x.id for x in ast.walk(ast.parse(a[2:], mode="eval")) if isinstance(x, ast.Name)}
                           for a in self.atoms.names if a.startswith("o:")}
+
+    def _param_kind(self, p: str) -> str:
+        kinds = getattr(self.la, "root_kinds", {}).get(self.f.qualname, {})
+        return kinds.get(p) or self.la.param_kinds.get((self.f.qualname, p)) or ("tuple" if p == self.f.vararg else "array")
 
     def forget(self, P: int, atom: str) -> int:
         """existentially quantify an atom (its variable was re-bound)"""
@@ -725,7 +731,7 @@ class _FuncLazy:
             if x.parts is not None and y.parts is not None and len(x.parts) == len(y.parts):
                 parts = tuple(_FuncLazy._join_vars({0: p}, {0: q}, pa, pb)[0] for p, q in zip(x.parts, y.parts))
             out[k] = VarInfo(chunk=chunk, exact=exact, kind=x.kind if x.kind == y.kind else ("array" if "array" in (x.kind, y.kind) else "other"),
-                             flag=fl, anyflag=af, parts=parts)
+                             flag=fl, anyflag=af, parts=parts, eager_ctor=x.eager_ctor and y.eager_ctor)
         return out
 
     # -- calls ---------------------------------------------------------------------------------------------
@@ -761,6 +767,8 @@ class _FuncLazy:
                 c = self.la.cg._methods.get(call.func.attr, [])
                 if len(c) == 1:
                     flox = c
+        if any(n in EAGER_CONSTRUCTORS for n in ext):
+            return VarInfo(kind="array", eager_ctor=True)
         for name in ext:
             pos = MATERIALISE_FUNCS.get(name)
             if pos is not None:
@@ -1010,6 +1018,15 @@ class _FuncLazy:
                 else:
                     v = self.ch(a.value, P, vs)
                     v = replace(v, chunk=v.chunk & P, parts=None if v.parts is None else tuple(replace(x, chunk=x.chunk & P) for x in v.parts))
+                first = v.parts[0] if v.parts else v
+                if first.eager_ctor:
+                    # an in-memory array is returned on a path on which an array parameter may still be chunked
+                    for pname in self.f.params:
+                        b = self.atoms.bit(f"ch:{pname}")
+                        info = vs.get(pname)
+                        if b is not None and (P & b) and self._param_kind(pname) == "array":
+                            self.sink(a, f"returns an in-memory array built by a NumPy constructor ({norm(a.value)[:40]}) although {pname!r} may be chunked "
+                                      "(the caller gets an eager result instead of a lazy one)", P & b)
                 if self.ret is None:
                     self.ret, self._retP = v, P
                 else:
